@@ -106,6 +106,10 @@ type Opt struct {
 	Over map[string]string
 	// Vals overrides the number of values per field (0 = 3 for up to three fields, else 2).
 	Vals int
+	// Hot restricts the one-hot walk of a struct with more than six fields to these field
+	// positions (1-based). ord.HCons costs 2^k steps when the k-th field decides, so an Ord over
+	// the HList representation (22 fields and more) is only evaluated with early deciders.
+	Hot []int
 	// Cross names the behaviour of a local instance function of the derived typeclass that
 	// takes an instance of ANOTHER typeclass for the element type of a sequence field; the
 	// element type's entry in Over says which instance of that other typeclass the documented
@@ -681,7 +685,18 @@ func buildDomain[T any](p Opt) *domain[T] {
 			if hot >= n {
 				hot, hotVal = 0, hotVal+1
 			}
-			for hotVal <= 2 && hotVal >= len(comps[hot]) {
+			isHot := func(f int) bool {
+				if len(p.Hot) == 0 {
+					return true
+				}
+				for _, h := range p.Hot {
+					if h == f+1 {
+						return true
+					}
+				}
+				return false
+			}
+			for hotVal <= 2 && (hotVal >= len(comps[hot]) || !isHot(hot)) {
 				hot++
 				if hot >= n {
 					hot, hotVal = 0, hotVal+1
